@@ -129,8 +129,9 @@ func (SlidingWindow) New(cfg Config) fiber.Handler {
 		err = c.Next()
 
 		// Check for SkipFailedRequests and SkipSuccessfulRequests
-		if (cfg.SkipSuccessfulRequests && c.Response().StatusCode() < fiber.StatusBadRequest) ||
-			(cfg.SkipFailedRequests && c.Response().StatusCode() >= fiber.StatusBadRequest) {
+		status := effectiveStatus(c, err)
+		if (cfg.SkipSuccessfulRequests && status < fiber.StatusBadRequest) ||
+			(cfg.SkipFailedRequests && status >= fiber.StatusBadRequest) {
 			// Lock entry
 			mux.Lock()
 			e, getErr := manager.get(key)
